@@ -34,6 +34,7 @@ prepare() { # $1 = patch file or "" for baseline
 }
 
 run_check() { # $1 = property
+    rm -rf "$S/out/replays" 2>/dev/null
     # the patched library is untrusted code: run it as an unprivileged user when we are root (a seeded change once
     # unlinked /dev/full through a real-OS probe)
     if [ "$(id -u)" = 0 ] && command -v setpriv >/dev/null 2>&1; then
